@@ -20,6 +20,8 @@ META = {
     "level_text": "For every object, environment and chunking: if the modelled PUT pipeline (Init, SendChunk*, Close) or the modelled replicate validation stores an object, then "
                   "its ID is the hash of its header, the stored payload is the concatenation of the chunks, its length and checksum are the declared ones, every header of the parent chain "
                   "is well-formed (version, type rules, owner, container, attributes without zero bytes/duplicates/empty values, expiration, EC part rules against policy and parent header, nesting depth) "
+                  "the content rules of system objects hold whatever the payload length (LINK: non-empty payload that parses, first child and container named, split verifier accepts; TOMBSTONE/LOCK: 2.18+, no payload, tombstone verifier accepts) "
+                  "for an EC part (unsigned by design) the parent header it carries has ID = hash of the parent header and a signature authenticating the owner or session, "
                   "and, unless it is an EC part, the signature over the ID authenticates the owner or the session (strictly for client PUT; replicated pre-2.18 objects keep the implementation's "
                   "documented owner exemption). The verdict does not depend on the chunking; a stream longer than declared is refused at the first overflowing chunk, a shorter one at Close; "
                   "a failing store of a child object surfaces at the call that caused it. For node-side slicing the children's payloads concatenate to the streamed payload for any chunking and limit (partial, see note).",
